@@ -18,10 +18,12 @@ CONSTANTS MatDelay, AllowH, RequireH,   \* network configuration
 
 HeightRules == {"mat-v1", "mat-v2", "uclock-v1-sc", "uclock-v1-sf", "siglock-v1", "siglock-v1-partial", "uclock-v2", "above-v2",
                 "form1-windowstart", "rev1-parent-windowstart", "rev1-new-windowstart", "prove1-windowstart",
+                "prove1-windowstart-empty", "prove1-windowstart-inblock", "prove1-windowstart-empty-inblock",
                 "form2-proofheight", "rev2-parent-proofheight", "rev2-new-proofheight", "prove2-proofheight", "expire2-expiration",
                 "era-v1", "era-v2"}
 V1Rules == {"mat-v1", "uclock-v1-sc", "uclock-v1-sf", "siglock-v1", "siglock-v1-partial", "form1-windowstart", "rev1-parent-windowstart",
-            "rev1-new-windowstart", "prove1-windowstart", "era-v1"}
+            "rev1-new-windowstart", "prove1-windowstart", "prove1-windowstart-empty", "prove1-windowstart-inblock",
+            "prove1-windowstart-empty-inblock", "era-v1"}
 
 \* does the rule, taken alone, admit the transaction in the child block?
 RuleOK(rule, child, B) ==
@@ -32,7 +34,9 @@ RuleOK(rule, child, B) ==
     [] rule = "form1-windowstart"                -> child <= B          \* window start B must not be in the past
     [] rule = "rev1-parent-windowstart"          -> child <= B          \* not once the window has opened
     [] rule = "rev1-new-windowstart"             -> child <= B
-    [] rule = "prove1-windowstart"               -> child >= B          \* the block at height B-1 exists
+    [] rule \in {"prove1-windowstart", "prove1-windowstart-empty"} -> child >= B   \* the block at height B-1 exists - also when the file is empty and nothing is challenged
+    \* the contract formed by an earlier transaction of the same block: formation wants child <= B, the proof child >= B
+    [] rule \in {"prove1-windowstart-inblock", "prove1-windowstart-empty-inblock"} -> child = B
     [] rule = "form2-proofheight"                -> child <= B
     [] rule = "rev2-parent-proofheight"          -> child <= B
     [] rule = "rev2-new-proofheight"             -> child <= B
@@ -44,9 +48,13 @@ RuleOK(rule, child, B) ==
 \* the transaction's own era must admit it for the rule to be observable
 EraOK(rule, child) == IF rule \in V1Rules THEN child < RequireH ELSE child >= AllowH
 Bounds(rule) == IF rule = "era-v1" THEN {RequireH} ELSE IF rule = "era-v2" THEN {AllowH} ELSE (First + 1)..(First + Span)
+\* rules that combine a "not after B" with a "not before B" condition admit exactly child = B; beyond B it is the
+\* formation rule that refuses the block (form1-windowstart covers that side)
+TwoSided == {"prove1-windowstart-inblock", "prove1-windowstart-empty-inblock"}
 Cases == {<<r, B, ch>> \in HeightRules \X (0..(First + Span + 8)) \X (1..(First + Span + 8)) :
              /\ B \in Bounds(r) /\ ch >= B - 2 /\ ch <= B + 2
-             /\ (r \in {"era-v1", "era-v2"} \/ (ch > First /\ EraOK(r, ch)))}
+             /\ (r \in {"era-v1", "era-v2"} \/ (ch > First /\ EraOK(r, ch)))
+             /\ (r \in TwoSided => ch <= B)}
 Expected(c) == RuleOK(c[1], c[3], c[2])
 
 \* ---- median time -----------------------------------------------------------
